@@ -7,6 +7,7 @@ the interconnection theorems and `Fin n` where the code enumerates coordinates.
 -/
 import CtrlVerif.Model.IOSysDyn
 import CtrlVerif.Lemmas.IOSys
+import CtrlVerif.Lemmas.IOSysHist
 import CtrlVerif.Lemmas.SS
 
 namespace CtrlVerif.C08
@@ -967,5 +968,122 @@ example :
   decide +kernel
 
 end OpPoint
+
+/-! ## the point at which `linearize` linearises (argument forms) -/
+
+section LinPoint
+
+/-- **linearize_operating_point**: `sys.linearize(op)` / `linearize(sys, op)` with the input omitted
+(or `None`) linearises at `(op.states, op.inputs)`. -/
+theorem linearize_operating_point (G : DIO) (env : ParamEnv) (t : Q) (xs us : VArg) (eps : Q) :
+    linearizeP G env t (.op xs us) .none eps = linearizeD G env t xs us eps := rfl
+
+/-- an input given beside an `OperatingPoint` replaces the operating point's input. -/
+theorem linearize_operating_point_input (G : DIO) (env : ParamEnv) (t : Q) (xs us U : VArg) (eps : Q)
+    (hU : U ≠ .none) : linearizeP G env t (.op xs us) U eps = linearizeD G env t xs U eps := by
+  cases U <;> first | rfl | exact absurd rfl hU
+
+/-- a state without an input: the input defaults to 0. -/
+theorem linearize_default_input (G : DIO) (env : ParamEnv) (t : Q) (x : VArg) (eps : Q) :
+    linearizeP G env t (.vec x) .none eps = linearizeD G env t x (.scalar 0) eps := rfl
+
+/-- a state and an input. -/
+theorem linearize_explicit_input (G : DIO) (env : ParamEnv) (t : Q) (x U : VArg) (eps : Q)
+    (hU : U ≠ .none) : linearizeP G env t (.vec x) U eps = linearizeD G env t x U eps := by
+  cases U <;> first | rfl | exact absurd rfl hU
+
+/-- non-vacuity: `f = x·u`, `h = x·u`; at the operating point `x = 1, u = 2` (step 1) the forward
+difference in `x` is `2`; with the input taken as `0` it would be `0`, and an input given beside the
+operating point (`3`) is used instead of the point's. -/
+example :
+    let G := DIO.ofPoly 1 1 1 .cont [] [[⟨1, [(.x 0, 1), (.u 0, 1)]⟩]] (some [[⟨1, [(.x 0, 1), (.u 0, 1)]⟩]])
+    let a := fun (r : Except Err (SS (Fin 1) (Fin 1) (Fin 1) Q)) => r.map fun S => S.A 0 0
+    (a (linearizeP G [] 0 (.op (.array [1]) (.array [2])) .none 1),
+     a (linearizeP G [] 0 (.vec (.array [1])) .none 1),
+     a (linearizeP G [] 0 (.op (.array [1]) (.array [2])) (.scalar 3) 1))
+      = (.ok 2, .ok 0, .ok 3) := by
+  decide +kernel
+
+end LinPoint
+
+/-! ## call histories: the parameter values of a call do not depend on earlier calls -/
+
+section History
+
+open PObj ParamEnv
+
+/-- **update_params_history**: whatever calls were made before — on the interconnection or on any
+of the objects inside it, with whatever `params` — `_update_params(env)` leaves every object of the
+tree in the state it would have on a tree never used before. -/
+theorem update_params_history (o : PObj) (h : List (List Nat × ParamEnv)) (env : ParamEnv) :
+    (o.runHist h).update env = o.update env :=
+  update_congr _ _ env (forget_runHist o h)
+
+/-- … in particular the dictionaries the update / output callables of the leaves work with. -/
+theorem seen_history (o : PObj) (h : List (List Nat × ParamEnv)) (env : ParamEnv) :
+    ((o.runHist h).update env).seen = (o.update env).seen := by
+  rw [update_params_history]
+
+/-- **call_history**: the same for a call on any object inside the tree (a subsystem that is also
+part of interconnections, an inner interconnection): after the call that object is in the state the
+same call produces on a tree never used before. -/
+theorem call_history (o : PObj) (h : List (List Nat × ParamEnv)) (path : List Nat) (env : ParamEnv) :
+    ((o.runHist h).callAt path env).sub path = (o.callAt path env).sub path := by
+  rw [sub_callAt, sub_callAt]
+  have hf : ((o.runHist h).sub path).map forget = (o.sub path).map forget := by
+    rw [← sub_forget, ← sub_forget, forget_runHist]
+  cases h₁ : (o.runHist h).sub path <;> cases h₂ : o.sub path <;> simp only [h₁, h₂, Option.map] at hf ⊢
+  · cases hf
+  · cases hf
+  · rename_i s s'
+    rw [update_congr s s' env (Option.some.inj hf)]
+
+/-- **update_params_functional**: after `_update_params(env)` the callables work with dictionaries
+that have the entries of the functional description executed by the driver (`DIO.build`: the call's
+`params` over the interconnections' over the subsystem's own, `params.get` defaults last). -/
+theorem update_params_functional (o : PObj) (env : ParamEnv) :
+    SameAll (o.update env).seen (o.chain env) := by
+  cases o with
+  | leaf ps d c => simp [update, seen, chain, SameAll, Same.refl]
+  | node ps subs =>
+    simp only [update, seen, chain]
+    exact seenSubs_updateSubs subs _ _ (Same.refl _)
+
+/-- both together: a call after any history evaluates the maps `DIO.build env` describes. -/
+theorem history_functional (o : PObj) (h : List (List Nat × ParamEnv)) (env : ParamEnv) :
+    SameAll ((o.runHist h).update env).seen (o.chain env) := by
+  rw [update_params_history]
+  exact update_params_functional o env
+
+/-- a polynomial system sees its dictionary only through the entries: dictionaries with the same
+entries give the same maps (so `SameAll` above is equality of the subsystems' maps). -/
+theorem polySys_same {e e' : ParamEnv} (h : Same e e') (n m p : Nat) (fs : List PPoly)
+    (hs : Option (List PPoly)) : polySys n m p fs hs e = polySys n m p fs hs e' :=
+  polySys_congr h n m p fs hs
+
+/-- a leaf of the driver is the leaf of the functional description. -/
+theorem ofPolyD_build (n m p : Nat) (dt : Dt) (ps d cur : ParamEnv) (fs : List PPoly)
+    (hs : Option (List PPoly)) (env : ParamEnv) :
+    (PObj.leaf ps d cur).chain env = [env ++ ps ++ d] ∧
+    (DIO.ofPolyD n m p dt ps d fs hs).build env = polySys n m p fs hs (env ++ ps ++ d) :=
+  ⟨rfl, rfl⟩
+
+/-- without `params.get` defaults it is the plain polynomial system. -/
+theorem ofPolyD_nil (n m p : Nat) (dt : Dt) (ps : ParamEnv) (fs : List PPoly)
+    (hs : Option (List PPoly)) : DIO.ofPolyD n m p dt ps [] fs hs = DIO.ofPoly n m p dt ps fs hs := by
+  simp [DIO.ofPolyD, DIO.ofPoly]
+
+/-- non-vacuity: a feedback loop of a plant whose callable reads `params.get('a', 1/2)` and a
+controller; after `plant.dynamics(…, params={'a': 9/10})` the plant object holds the override, and
+the next call on the loop without `params` resets it: the plant works with `a = 1/2` again. -/
+example :
+    let plant := PObj.leaf [] [("a", 1 / 2)] []
+    let loop := PObj.node [] (.cons plant (.cons (.leaf [] [] []) .nil))
+    let used := loop.runHist [([], []), ([0], [("a", 9 / 10)])]
+    (used.seen.map fun e => e.lookup "a", (used.update []).seen.map fun e => e.lookup "a")
+      = ([some (9 / 10), none], [some (1 / 2), none]) := by
+  decide +kernel
+
+end History
 
 end CtrlVerif.C08
